@@ -44,11 +44,12 @@ def stages(tier, seed):
     cyc1["trace_out"] = "MC_C01_W_cycles1.ndjson"
     vals = fam("MC_C05_c09", "MC_C05", dict(constants={"ArgNames": ALL_ARGS, "Depth": 2 if big else 1}, invariants=["Emit"]))
     degen = fam("MC_C09_degen", "MC_C09", dict(constants={"Mode": '"degen"', "L": 1}, invariants=["Emit"]))
+    subcyc = fam("MC_C09_subcyc", "MC_C09", dict(constants={"Mode": '"subcyc"', "L": 1}, invariants=["Emit"]))
     # the variable-definition / field-definition contexts of MC_C03 (a fixed prefix, then every token string up to the
     # bound, pruned at the first non-viable token): what the parser lets through there reaches validation and planning
     ctx = fam("MC_C09_ctx", "MC_C09ctx", dict(constants={"Fams": "<- FamsVarDef12" if big else "<- FamsVarDef"}, invariants=["Emit"]),
               timeout=3000)
-    for st in (toks, chars, degen, ctx, wq, wm, ws, cyc, cyc1, vals):
+    for st in (toks, chars, degen, subcyc, ctx, wq, wm, ws, cyc, cyc1, vals):
         st["fatal_is_violation"] = True
         out.append(st)
         out.append(tv(st["trace_out"][:-7]))
